@@ -113,6 +113,7 @@ func fsckCommand(cmd *cobra.Command, args []string) {
 		if srcFile == os.DevNull {
 			continue
 		}
+		tools.VerifFs("rename", srcFile, badFile)
 		if err := os.Rename(srcFile, badFile); err != nil {
 			if os.IsNotExist(err) {
 				continue
